@@ -48,7 +48,13 @@ func newImmWorld(w *world, order []int, decoded bool) (*immWorld, error) {
 	if iw.aud, err = w.principal("A"); err != nil {
 		return nil, err
 	}
-	pol, _ := policy.FromDagJson(`[[">=", ".alpha", 0], ["like", ".zeta", "*"]]`)
+	// connectives whose operands are of different kinds, the expensive ones first (an evaluation that reorders them is visible)
+	pol, perr := policy.FromDagJson(`[[">=", ".alpha", 0], ["like", ".zeta", "*"],
+		["or", [["any", ".digest?", ["==", ".", 1]], ["all", ".nolist?", [">", ".", 0]], ["==", ".alpha", 0], [">=", ".alpha", 0]]],
+		["and", [["not", ["any", ".nolist?", ["==", ".", 1]]], ["or", [["like", ".zeta", "q*"], [">=", ".alpha", 0]]], [">=", ".alpha", 0]]]]`)
+	if perr != nil {
+		return nil, perr
+	}
 	// bounds with a sub-second part: a read-only operation that normalises them in place is visible
 	dopts := []delegation.Option{delegation.WithSubject(iw.iss.id), delegation.WithExpirationIn(time.Hour + 300*time.Millisecond),
 		delegation.WithNotBeforeIn(-time.Hour - 700*time.Millisecond)}
@@ -56,7 +62,13 @@ func newImmWorld(w *world, order []int, decoded bool) (*immWorld, error) {
 	blob := bytes.Repeat([]byte{0xab, 0x01}, 30)
 	encKey := bytes.Repeat([]byte{7}, 32)
 	dopts = append(dopts, delegation.WithMeta("blob", blob), delegation.WithEncryptedMetaString("secret", "a secret note", encKey))
-	iopts := []invocation.Option{invocation.WithMeta("blob", blob), invocation.WithEncryptedMetaBytes("secret", []byte("a secret note"), encKey)}
+	// a long byte-string ARGUMENT (a digest, a signature) whose head, middle and tail differ
+	digest := make([]byte, 64)
+	for i := range digest {
+		digest[i] = byte(i)
+	}
+	iopts := []invocation.Option{invocation.WithMeta("blob", blob), invocation.WithEncryptedMetaBytes("secret", []byte("a secret note"), encKey),
+		invocation.WithArgument("digest", digest)}
 	for _, k := range order {
 		name := immKeyNames[k]
 		iw.keys = append(iw.keys, name)
